@@ -15,6 +15,9 @@ import (
 // tier 2: thorough
 
 func vDataLen(tier, min int) int {
+	if tier < 0 {
+		return 2
+	}
 	switch tier {
 	case 0:
 		return vr.IntOf(min, 3)
@@ -25,6 +28,9 @@ func vDataLen(tier, min int) int {
 }
 
 func vSPILen(tier int) int {
+	if tier < 0 {
+		return 4
+	}
 	switch tier {
 	case 0:
 		return vr.IntOf(0, 4)
@@ -93,7 +99,9 @@ func vGenProposal(tier int, first bool) *Proposal {
 	for i := 0; i < nt; i++ {
 		var ttype uint8
 		var form int
-		if i == 0 && first {
+		if tier < 0 {
+			ttype, form = 1, 1
+		} else if i == 0 && first {
 			ttype = uint8(vr.IntIn(1, 5))
 			if tier == 0 {
 				form = vr.IntOf(1, 2)
@@ -139,7 +147,7 @@ func vGenTS(tier int) IndividualTrafficSelectorContainer {
 	}
 	for i := 0; i < n; i++ {
 		ts := &IndividualTrafficSelector{IPProtocolID: vr.U8(), StartPort: vr.U16(), EndPort: vr.U16()}
-		if vr.IntIn(0, 1) == 0 {
+		if tier < 0 || vr.IntIn(0, 1) == 0 {
 			ts.TSType = TS_IPV4_ADDR_RANGE
 			ts.StartAddress, ts.EndAddress = vr.Bytes(4), vr.Bytes(4)
 		} else {
@@ -154,6 +162,9 @@ func vGenTS(tier int) IndividualTrafficSelectorContainer {
 // VEapMethods lists the EAP shapes (method, AKA' attribute mask) used inside IKE messages.
 func vGenEAPPayload(tier int) *PayloadEap {
 	var e *eap_message.EAP
+	if tier < 0 {
+		return &PayloadEap{EAP: eap_message.VGenEAP(50, 1|16, -1)}
+	}
 	switch tier {
 	case 0:
 		switch vr.IntIn(0, 2) {
@@ -215,6 +226,8 @@ func VGenPayload(kind int, tier int) IKEPayload {
 		d := &Delete{ProtocolID: vr.U8()}
 		k := 0
 		switch tier {
+		case -1:
+			k = 1
 		case 0:
 			k = vr.IntIn(0, 1)
 		case 1:
@@ -435,4 +448,153 @@ func VEqMessage(a, b *IKEMessage) bool {
 // VKindName is used in assertion labels.
 func VKindName(kind int) string {
 	return IkePayloadType(kind).String()
+}
+
+// ---- deep snapshots ---------------------------------------------------------------------------
+
+func vCloneTransforms(c TransformContainer) TransformContainer {
+	var out TransformContainer
+	for _, t := range c {
+		n := *t
+		n.VariableLengthAttributeValue = vCloneBytes(t.VariableLengthAttributeValue)
+		out = append(out, &n)
+	}
+	return out
+}
+
+func vCloneTS(c IndividualTrafficSelectorContainer) IndividualTrafficSelectorContainer {
+	var out IndividualTrafficSelectorContainer
+	for _, t := range c {
+		n := *t
+		n.StartAddress, n.EndAddress = vCloneBytes(t.StartAddress), vCloneBytes(t.EndAddress)
+		out = append(out, &n)
+	}
+	return out
+}
+
+// VClonePayload makes a deep copy (snapshot) of a payload.
+func VClonePayload(p IKEPayload) IKEPayload {
+	switch x := p.(type) {
+	case *SecurityAssociation:
+		sa := new(SecurityAssociation)
+		for _, pr := range x.Proposals {
+			sa.Proposals = append(sa.Proposals, &Proposal{ProposalNumber: pr.ProposalNumber, ProtocolID: pr.ProtocolID, SPI: vCloneBytes(pr.SPI),
+				EncryptionAlgorithm: vCloneTransforms(pr.EncryptionAlgorithm), PseudorandomFunction: vCloneTransforms(pr.PseudorandomFunction),
+				IntegrityAlgorithm: vCloneTransforms(pr.IntegrityAlgorithm), DiffieHellmanGroup: vCloneTransforms(pr.DiffieHellmanGroup),
+				ExtendedSequenceNumbers: vCloneTransforms(pr.ExtendedSequenceNumbers)})
+		}
+		return sa
+	case *KeyExchange:
+		return &KeyExchange{DiffieHellmanGroup: x.DiffieHellmanGroup, KeyExchangeData: vCloneBytes(x.KeyExchangeData)}
+	case *IdentificationInitiator:
+		return &IdentificationInitiator{IDType: x.IDType, IDData: vCloneBytes(x.IDData)}
+	case *IdentificationResponder:
+		return &IdentificationResponder{IDType: x.IDType, IDData: vCloneBytes(x.IDData)}
+	case *Certificate:
+		return &Certificate{CertificateEncoding: x.CertificateEncoding, CertificateData: vCloneBytes(x.CertificateData)}
+	case *CertificateRequest:
+		return &CertificateRequest{CertificateEncoding: x.CertificateEncoding, CertificationAuthority: vCloneBytes(x.CertificationAuthority)}
+	case *Authentication:
+		return &Authentication{AuthenticationMethod: x.AuthenticationMethod, AuthenticationData: vCloneBytes(x.AuthenticationData)}
+	case *Nonce:
+		return &Nonce{NonceData: vCloneBytes(x.NonceData)}
+	case *Notification:
+		return &Notification{ProtocolID: x.ProtocolID, NotifyMessageType: x.NotifyMessageType, SPI: vCloneBytes(x.SPI), NotificationData: vCloneBytes(x.NotificationData)}
+	case *Delete:
+		d := &Delete{ProtocolID: x.ProtocolID, SPISize: x.SPISize, NumberOfSPI: x.NumberOfSPI}
+		d.SPIs = append(d.SPIs, x.SPIs...)
+		return d
+	case *VendorID:
+		return &VendorID{VendorIDData: vCloneBytes(x.VendorIDData)}
+	case *TrafficSelectorInitiator:
+		return &TrafficSelectorInitiator{TrafficSelectors: vCloneTS(x.TrafficSelectors)}
+	case *TrafficSelectorResponder:
+		return &TrafficSelectorResponder{TrafficSelectors: vCloneTS(x.TrafficSelectors)}
+	case *Encrypted:
+		return &Encrypted{NextPayload: x.NextPayload, EncryptedData: vCloneBytes(x.EncryptedData)}
+	case *Configuration:
+		c := &Configuration{ConfigurationType: x.ConfigurationType}
+		for _, a := range x.ConfigurationAttribute {
+			c.ConfigurationAttribute = append(c.ConfigurationAttribute, &IndividualConfigurationAttribute{Type: a.Type, Value: vCloneBytes(a.Value)})
+		}
+		return c
+	case *PayloadEap:
+		return &PayloadEap{EAP: eap_message.VCloneEAP(x.EAP)}
+	}
+	panic("VClonePayload: unknown payload")
+}
+
+func VClonePayloads(c IKEPayloadContainer) IKEPayloadContainer {
+	var out IKEPayloadContainer
+	for _, p := range c {
+		out = append(out, VClonePayload(p))
+	}
+	return out
+}
+
+func VCloneMessage(m *IKEMessage) *IKEMessage {
+	h := *m.IKEHeader
+	h.PayloadBytes = vCloneBytes(m.IKEHeader.PayloadBytes)
+	return &IKEMessage{IKEHeader: &h, Payloads: VClonePayloads(m.Payloads)}
+}
+
+// ---- independent chain assembly (used by C13 and the reference codec) ----------------------------
+
+// VItem is one element of a payload chain on the wire: its type, flags octet and body.
+type VItem struct {
+	Type  uint8
+	Flags uint8
+	Body  []byte
+}
+
+// VAssemble writes header + chain from scratch (RFC 7296 3.1, 3.2), independently of the library's
+// encoder: next-payload links, lengths, total length.
+func VAssemble(h *IKEHeader, items []VItem) []byte {
+	var chain []byte
+	for i, it := range items {
+		next := uint8(0)
+		if i+1 < len(items) {
+			next = items[i+1].Type
+		}
+		l := 4 + len(it.Body)
+		chain = append(chain, next, it.Flags, uint8(l>>8), uint8(l))
+		chain = append(chain, it.Body...)
+	}
+	first := uint8(0)
+	if len(items) > 0 {
+		first = items[0].Type
+	}
+	total := 28 + len(chain)
+	out := make([]byte, 0, total)
+	for s := 56; s >= 0; s -= 8 {
+		out = append(out, uint8(h.InitiatorSPI>>uint(s)))
+	}
+	for s := 56; s >= 0; s -= 8 {
+		out = append(out, uint8(h.ResponderSPI>>uint(s)))
+	}
+	out = append(out, first, h.MajorVersion<<4|h.MinorVersion&0x0f, h.ExchangeType, h.Flags)
+	out = append(out, uint8(h.MessageID>>24), uint8(h.MessageID>>16), uint8(h.MessageID>>8), uint8(h.MessageID))
+	out = append(out, uint8(total>>24), uint8(total>>16), uint8(total>>8), uint8(total))
+	return append(out, chain...)
+}
+
+// VBodyOf returns the body octets the library's encoder produces for one payload.
+func VBodyOf(p IKEPayload) ([]byte, error) {
+	return p.Marshal()
+}
+
+// VEqPayloadsExact is VEqPayloads plus the private EAP-AKA' bookkeeping (frame conditions).
+func VEqPayloadsExact(a, b IKEPayloadContainer) bool {
+	ok := VEqPayloads(a, b)
+	if len(a) != len(b) {
+		return false
+	}
+	for i := range a {
+		x, isx := a[i].(*PayloadEap)
+		y, isy := b[i].(*PayloadEap)
+		if isx && isy && x.EAP != nil && y.EAP != nil && x.EAP.EapTypeData != nil && y.EAP.EapTypeData != nil {
+			ok = vr.All(ok, eap_message.VEqEAPExact(x.EAP, y.EAP))
+		}
+	}
+	return ok
 }
